@@ -41,9 +41,14 @@ struct MV {
   }
 };
 
-// exact structural equality: object members in order (duplicates significant)
+// exact structural equality: object members in order (duplicates significant).
+// An expected integer zero written "-0" (negzero) also matches the double -0.0 (kind underspecified).
 inline bool eq_ordered(const MV& x, const MV& y) {
-  if (x.k != y.k) return false;
+  if (x.k != y.k) {
+    const MV& i = x.k == MV::Uint ? x : y;
+    const MV& r = x.k == MV::Uint ? y : x;
+    return i.k == MV::Uint && i.negzero && i.u == 0 && r.k == MV::Real && r.u == 0x8000000000000000ull;
+  }
   switch (x.k) {
     case MV::Uint: case MV::Sint: case MV::Real: return x.u == y.u;
     case MV::Str: return x.s == y.s;
@@ -110,6 +115,9 @@ inline size_t mv_nodes(const MV& x) {
   else if (x.k == MV::Obj) for (auto& kv : x.o) n += mv_nodes(kv.second);
   return n;
 }
+
+// first difference between two values: "path: x vs y" (empty when eq_ordered)
+std::string mv_diff(const MV& x, const MV& y);
 
 // debugging / canonical text form (numbers shown with kind tags; not JSON)
 std::string mv_show(const MV& x, size_t max = 300);
